@@ -221,21 +221,31 @@ mod proofs {
         let mut r = c1.clone();
         if square { ev.square_inplace(&mut r); } else { ev.multiply_inplace(&mut r, &c2); }
         let (s1, s2) = (L1 / 2, if square { L1 / 2 } else { L2 / 2 });
-        let k: usize = kani::any(); let p: usize = kani::any(); kani::assume(k < s1 + s2 - 1 && p < 2);
-        let q = 97u32;
-        let mut e = 0u32; let mut i = 0;
-        while i < s1 {
-            if k >= i && k - i < s2 {
-                let bj = if square { a[(k - i) * 2 + p] } else { b[(k - i) * 2 + p] };
-                e = (e + a[i * 2 + p] as u32 * bj as u32) % q;
-            }
-            i += 1;
-        }
-        kani::cover!(k == s1 + s2 - 2 && e != 0);
+        // reference composed from the word kernels themselves (decided separately: C08 engine M, c02_poly_kernels_positionwise),
+        // so that the solver compares identical circuits and only the evaluator's index/loop structure is in question;
+        // every output polynomial k and slot p is checked (concrete indices: no symbolic array selection)
+        let m97 = crate::modulus::verif_v::mk_modulus(97, true);
         assert!(r.size() == s1 + s2 - 1 && r.data().len() == (s1 + s2 - 1) * 2 && r.is_ntt_form() && *r.parms_id() == pid);
-        assert!(r.data()[k * 2 + p] as u32 == e);
+        let mut k = 0;
+        while k < s1 + s2 - 1 {
+            let mut p = 0;
+            while p < 2 {
+                let mut e = 0u64; let mut i = 0;
+                while i < s1 {
+                    if k >= i && k - i < s2 {
+                        let bj = if square { a[(k - i) * 2 + p] } else { b[(k - i) * 2 + p] };
+                        e = kadd(e, kmul(a[i * 2 + p], bj, &m97), &m97);
+                    }
+                    i += 1;
+                }
+                if k == s1 + s2 - 2 && p == 1 { kani::cover!(e != 0); }
+                assert!(r.data()[k * 2 + p] == e);
+                p += 1;
+            }
+            k += 1;
+        }
         assert!(r.correction_factor() == if square { 9 } else { 15 });
-        assert!(c2.size() == L2 / 2 && c2.data()[p] == b[p]);
+        assert!(c2.size() == L2 / 2 && c2.data()[0] == b[0] && c2.data()[L2 - 1] == b[L2 - 1]);
     }
 
     // @harness id=C02 tier=quick unwind=14 timeout=2400 fs=4096
@@ -304,13 +314,24 @@ mod proofs {
         let c1 = ct1(&a, pid, true, 1, s1); let c2 = ct1(&b, pid, true, 1, s2);
         let mut r = c1.clone();
         ev.multiply_inplace(&mut r, &c2);
-        let p: usize = kani::any(); kani::assume(p < 2);
-        let q = 97u32;
-        kani::cover!(a[p] != 0 && b[2 + p] != 0);
+        let m97 = crate::modulus::verif_v::mk_modulus(97, true);
+        kani::cover!(a[0] != 0 && b[2] != 0);
         assert!(r.scale().to_bits() == (s1 * s2).to_bits());
-        assert!(r.size() == 3 && r.data()[2 + p] as u32 == (a[p] as u32 * b[2 + p] as u32 + a[2 + p] as u32 * b[p] as u32) % q);
+        assert!(r.size() == 3);
+        let mut p = 0;
+        while p < 2 {
+            assert!(r.data()[p] == kadd(0, kmul(a[p], b[p], &m97), &m97));
+            assert!(r.data()[2 + p] == kadd(kadd(0, kmul(a[p], b[2 + p], &m97), &m97), kmul(a[2 + p], b[p], &m97), &m97));
+            assert!(r.data()[4 + p] == kadd(0, kmul(a[2 + p], b[2 + p], &m97), &m97));
+            p += 1;
+        }
         assert!(r.correction_factor() == 1 && *r.parms_id() == pid);
     }
+
+    /// word kernels of the multiplication routines, applied to ONE position: the reference of the evaluator-level multiply
+    /// harnesses is composed from them (their own arithmetic is decided by c02_poly_kernels_positionwise and engine M)
+    fn kmul(x: u64, y: u64, m: &crate::Modulus) -> u64 { let mut o = [0u64]; polymod::dyadic_product(&[x], &[y], m, &mut o); o[0] }
+    fn kadd(x: u64, y: u64, m: &crate::Modulus) -> u64 { let mut o = [x]; polymod::add_inplace(&mut o, &[y], m); o[0] }
 
     fn crt2(r0: u64, r1: u64) -> u64 { // x < 97*113 with x = r0 mod 97, x = r1 mod 113; 113^-1 mod 97 = 91
         r1 + 113 * ((((r0 + 97 * 2 - r1 % 97) % 97) * 91) % 97)
@@ -532,21 +553,68 @@ mod proofs {
 
     // @harness id=C06 tier=quick unwind=14 timeout=2400 fs=4096
     // @desc the validity predicate every evaluator operation applies first (Evaluator::check_ciphertext = is_valid_for + seed check) rejects EVERY single-field corruption of an otherwise valid ciphertext: a residue >= q at any position of any polynomial, a foreign parms id (any bit pattern), size 1, wrong degree, wrong modulus count, buffer shorter than announced, scale != 1 in BFV, correction factor != 1 in BFV, an unexpanded seed marker
-    // @bounds BFV N=2, q={97}; size-2 ciphertext, all other residues canonical; corruption kind chosen symbolically (each kind runs in its own concrete arm), corrupted value symbolic
+    // @bounds BFV N=2, q={97}; size-2 ciphertext, all other residues canonical; corruption kinds of this harness: out-of-range residue; foreign parms id, corrupted value symbolic
     // @funcs Ciphertext::is_valid_for, Ciphertext::is_metadata_valid_for, Ciphertext::is_data_valid_for, Ciphertext::is_buffer_valid, Ciphertext::contains_seed
     // @stubs HeContext::get_context_data -> linear search over the literal chain (HashMap lookup outside the claim); alloc::sync::Arc::drop_slow -> no-op (memory reclamation outside the claim)
     #[kani::proof]
     #[kani::stub(crate::context::HeContext::get_context_data, crate::context::verif_v::get_context_data_stub)]
     #[kani::stub(alloc::sync::Arc::drop_slow, crate::verif_v::arc_drop_slow_noop)]
-    fn c06_validity_rejects_every_corruption() {
+    fn c06_validity_rejects_residue_or_id() {
         let ctx = lits::ctx_bfv_n2_1p();
         let pid = *ctx.first_parms_id();
-        let w: u8 = kani::any();
-        if w == 0 { corrupt_case(&ctx, pid, 0) } else if w == 1 { corrupt_case(&ctx, pid, 1) } else if w == 2 { corrupt_case(&ctx, pid, 2) }
-        else if w == 3 { corrupt_case(&ctx, pid, 3) } else if w == 4 { corrupt_case(&ctx, pid, 4) } else if w == 5 { corrupt_case(&ctx, pid, 6) }
-        else if w == 6 { corrupt_case(&ctx, pid, 7) } else { corrupt_case(&ctx, pid, 8) }
+        let w: bool = kani::any();
+        if w { corrupt_case(&ctx, pid, 0) } else { corrupt_case(&ctx, pid, 1) }
         std::mem::forget(ctx);
     }
+
+    // @harness id=C06 tier=quick unwind=14 timeout=2400 fs=4096
+    // @desc the validity predicate every evaluator operation applies first (Evaluator::check_ciphertext = is_valid_for + seed check) rejects EVERY single-field corruption of an otherwise valid ciphertext: a residue >= q at any position of any polynomial, a foreign parms id (any bit pattern), size 1, wrong degree, wrong modulus count, buffer shorter than announced, scale != 1 in BFV, correction factor != 1 in BFV, an unexpanded seed marker
+    // @bounds BFV N=2, q={97}; size-2 ciphertext, all other residues canonical; corruption kinds of this harness: size 1; wrong degree, corrupted value symbolic
+    // @funcs Ciphertext::is_valid_for, Ciphertext::is_metadata_valid_for, Ciphertext::is_data_valid_for, Ciphertext::is_buffer_valid, Ciphertext::contains_seed
+    // @stubs HeContext::get_context_data -> linear search over the literal chain (HashMap lookup outside the claim); alloc::sync::Arc::drop_slow -> no-op (memory reclamation outside the claim)
+    #[kani::proof]
+    #[kani::stub(crate::context::HeContext::get_context_data, crate::context::verif_v::get_context_data_stub)]
+    #[kani::stub(alloc::sync::Arc::drop_slow, crate::verif_v::arc_drop_slow_noop)]
+    fn c06_validity_rejects_shape_a() {
+        let ctx = lits::ctx_bfv_n2_1p();
+        let pid = *ctx.first_parms_id();
+        let w: bool = kani::any();
+        if w { corrupt_case(&ctx, pid, 2) } else { corrupt_case(&ctx, pid, 3) }
+        std::mem::forget(ctx);
+    }
+
+    // @harness id=C06 tier=quick unwind=14 timeout=2400 fs=4096
+    // @desc the validity predicate every evaluator operation applies first (Evaluator::check_ciphertext = is_valid_for + seed check) rejects EVERY single-field corruption of an otherwise valid ciphertext: a residue >= q at any position of any polynomial, a foreign parms id (any bit pattern), size 1, wrong degree, wrong modulus count, buffer shorter than announced, scale != 1 in BFV, correction factor != 1 in BFV, an unexpanded seed marker
+    // @bounds BFV N=2, q={97}; size-2 ciphertext, all other residues canonical; corruption kinds of this harness: wrong modulus count; scale != 1, corrupted value symbolic
+    // @funcs Ciphertext::is_valid_for, Ciphertext::is_metadata_valid_for, Ciphertext::is_data_valid_for, Ciphertext::is_buffer_valid, Ciphertext::contains_seed
+    // @stubs HeContext::get_context_data -> linear search over the literal chain (HashMap lookup outside the claim); alloc::sync::Arc::drop_slow -> no-op (memory reclamation outside the claim)
+    #[kani::proof]
+    #[kani::stub(crate::context::HeContext::get_context_data, crate::context::verif_v::get_context_data_stub)]
+    #[kani::stub(alloc::sync::Arc::drop_slow, crate::verif_v::arc_drop_slow_noop)]
+    fn c06_validity_rejects_shape_b() {
+        let ctx = lits::ctx_bfv_n2_1p();
+        let pid = *ctx.first_parms_id();
+        let w: bool = kani::any();
+        if w { corrupt_case(&ctx, pid, 4) } else { corrupt_case(&ctx, pid, 6) }
+        std::mem::forget(ctx);
+    }
+
+    // @harness id=C06 tier=quick unwind=14 timeout=2400 fs=4096
+    // @desc the validity predicate every evaluator operation applies first (Evaluator::check_ciphertext = is_valid_for + seed check) rejects EVERY single-field corruption of an otherwise valid ciphertext: a residue >= q at any position of any polynomial, a foreign parms id (any bit pattern), size 1, wrong degree, wrong modulus count, buffer shorter than announced, scale != 1 in BFV, correction factor != 1 in BFV, an unexpanded seed marker
+    // @bounds BFV N=2, q={97}; size-2 ciphertext, all other residues canonical; corruption kinds of this harness: correction factor != 1; seed marker, corrupted value symbolic
+    // @funcs Ciphertext::is_valid_for, Ciphertext::is_metadata_valid_for, Ciphertext::is_data_valid_for, Ciphertext::is_buffer_valid, Ciphertext::contains_seed
+    // @stubs HeContext::get_context_data -> linear search over the literal chain (HashMap lookup outside the claim); alloc::sync::Arc::drop_slow -> no-op (memory reclamation outside the claim)
+    #[kani::proof]
+    #[kani::stub(crate::context::HeContext::get_context_data, crate::context::verif_v::get_context_data_stub)]
+    #[kani::stub(alloc::sync::Arc::drop_slow, crate::verif_v::arc_drop_slow_noop)]
+    fn c06_validity_rejects_cf_or_seed() {
+        let ctx = lits::ctx_bfv_n2_1p();
+        let pid = *ctx.first_parms_id();
+        let w: bool = kani::any();
+        if w { corrupt_case(&ctx, pid, 7) } else { corrupt_case(&ctx, pid, 8) }
+        std::mem::forget(ctx);
+    }
+
     fn corrupt_case(ctx: &Arc<HeContext>, pid: ParmsID, which: u8) {
         let mut b = sym1::<4>();
         let bad: u8 = kani::any();
